@@ -495,19 +495,76 @@ func judgeEncode(c EncodeCase) (vs []evid.Violation) {
 	if err != nil {
 		return []evid.Violation{evid.V("harness", "bad case: %v", err)}
 	}
+	var entry *abi.Entry
+	if c.Fn != "" {
+		_, pa2, _ := parseParams(c) // a fresh, unvalidated parameter array
+		entry = &abi.Entry{Type: abi.Function, Name: c.Fn, Inputs: pa2}
+	}
+	return judgeEncodeWith(c, t, pa, entry)
+}
+
+// owed is what the reference says about one input: the verdict and, unless it must be
+// rejected, the bytes of the specification encoding.
+type owed struct {
+	r    *interpretation
+	want []byte
+}
+
+func reference(t *abiref.Type, in abigen.Ext) (*owed, error) {
+	o := &owed{r: interpret(t, in)}
+	if o.r.v == vUnspec || o.r.v == vReject {
+		return o, nil
+	}
+	var err error
+	if o.want, _, err = abiref.Enc(t, o.r.val); err != nil {
+		return nil, fmt.Errorf("reference could not encode an accepted value: %v", err)
+	}
+	return o, nil
+}
+
+// settle compares one answer of the library with what is owed.
+func (o *owed) settle(api string, got []byte, err error, want []byte) *evid.Violation {
+	var v evid.Violation
+	switch o.r.v {
+	case vAccept:
+		if err != nil {
+			v = evid.V("accept-valid", "%s rejected a well-formed in-range input: %v", api, err)
+		} else if !bytes.Equal(got, want) {
+			v = evid.V("encoding-equals-spec", "%s: %s", api, firstDiff(got, want))
+		} else {
+			return nil
+		}
+	case vMay:
+		if err == nil && !bytes.Equal(got, want) {
+			v = evid.V("exact-or-rejected", "%s accepted the input (%s) but did not encode the value it denotes: %s", api, o.r.reason, firstDiff(got, want))
+		} else {
+			return nil
+		}
+	case vReject:
+		if err == nil {
+			v = evid.V("reject-invalid", "%s accepted an input that must be rejected (%s); encoded %s", api, o.r.reason, short(got))
+		} else {
+			return nil
+		}
+	default:
+		return nil
+	}
+	return &v
+}
+
+// judgeEncodeWith judges one input against the library definition objects it is given (fresh
+// ones for the "encode" kind; long-lived, shared or re-validated ones for the sequence kinds).
+func judgeEncodeWith(c EncodeCase, t *abiref.Type, pa abi.ParameterArray, entry *abi.Entry) (vs []evid.Violation) {
 	if t.HasZeroSizeArrayElem() {
 		return nil // outside the quantifier
 	}
-	r := interpret(t, c.Input)
+	o, err := reference(t, c.Input)
+	if err != nil {
+		return []evid.Violation{evid.V("harness", "%v", err)}
+	}
+	r, want := o.r, o.want
 	if r.v == vUnspec {
 		return nil
-	}
-	var want []byte
-	if r.v != vReject {
-		want, _, err = abiref.Enc(t, r.val)
-		if err != nil {
-			return []evid.Violation{evid.V("harness", "reference could not encode an accepted value: %v", err)}
-		}
 	}
 	var txt []byte
 	var goVal interface{}
@@ -519,21 +576,8 @@ func judgeEncode(c EncodeCase) (vs []evid.Violation) {
 		goVal = c.Input.Go()
 	}
 	check := func(api string, got []byte, err error, want []byte) {
-		switch r.v {
-		case vAccept:
-			if err != nil {
-				vs = append(vs, evid.V("accept-valid", "%s rejected a well-formed in-range input: %v", api, err))
-			} else if !bytes.Equal(got, want) {
-				vs = append(vs, evid.V("encoding-equals-spec", "%s: %s", api, firstDiff(got, want)))
-			}
-		case vMay:
-			if err == nil && !bytes.Equal(got, want) {
-				vs = append(vs, evid.V("exact-or-rejected", "%s accepted the input (%s) but did not encode the value it denotes: %s", api, r.reason, firstDiff(got, want)))
-			}
-		case vReject:
-			if err == nil {
-				vs = append(vs, evid.V("reject-invalid", "%s accepted an input that must be rejected (%s); encoded %s", api, r.reason, short(got)))
-			}
+		if v := o.settle(api, got, err, want); v != nil {
+			vs = append(vs, *v)
 		}
 	}
 	var got []byte
@@ -549,12 +593,10 @@ func judgeEncode(c EncodeCase) (vs []evid.Violation) {
 		return append(vs, *pv)
 	}
 	check(api, got, err, want)
-	if c.Fn != "" {
-		_, pa2, _ := parseParams(c) // a fresh, unvalidated parameter array
-		entry := &abi.Entry{Type: abi.Function, Name: c.Fn, Inputs: pa2}
+	if entry != nil {
 		var want2 []byte
 		if r.v != vReject {
-			want2 = append(abiref.Selector(abiref.Signature(c.Fn, t)), want...)
+			want2 = append(abiref.Selector(abiref.Signature(entry.Name, t)), want...)
 		}
 		api2 := "EncodeCallDataJSON"
 		if pv := evid.Guard("no-panic", func() {
@@ -568,7 +610,7 @@ func judgeEncode(c EncodeCase) (vs []evid.Violation) {
 			return append(vs, *pv)
 		}
 		if err == nil && r.v != vReject && len(got) >= 4 && !bytes.Equal(got[:4], want2[:4]) {
-			vs = append(vs, evid.V("call-data-selector", "%s: selector %x, want %x for %s", api2, got[:4], want2[:4], abiref.Signature(c.Fn, t)))
+			vs = append(vs, evid.V("call-data-selector", "%s: selector %x, want %x for %s", api2, got[:4], want2[:4], abiref.Signature(entry.Name, t)))
 		} else {
 			if len(got) >= 4 && len(want2) >= 4 {
 				got, want2 = got[4:], want2[4:]
@@ -884,6 +926,10 @@ func TestCheck(t *testing.T) {
 	rec.Assume("integral numbers spelled with a fraction or exponent (\"1.0\", \"12e3\") and float64 values of magnitude >= 2^63 may be rejected, but if accepted must be encoded exactly")
 	kEnc := evid.NewKind(rec, "encode", judgeEncode)
 	cpool := evid.NewPool(rec, "concurrent", judgeEncode, 64)
+	kReval := evid.NewKind(rec, "revalidate", judgeReval)
+	kHist := evid.NewKind(rec, "history", judgeHistory)
+	kShared := evid.NewKind(rec, "shared", judgeShared).DeclareEach()
+	rec.Assume("sequence kinds: a definition edited in place is validated again before it is used (the documented contract); value trees returned by ParseExternalData may refer to the caller's Go values (not asserted), every other result must be independent of caller-owned memory and of later calls")
 	rec.Corpus(t)
 
 	noNegFixed := kEnc.Probe(probeKeyNegFixed,
@@ -936,6 +982,19 @@ func TestCheck(t *testing.T) {
 		kEnc.Check(rt, c, nt, cl...)
 	})
 	cpool.Run(t, 8, 3, 16)
+
+	rec.Rapid(t, "revalidate", rec.N(2500, 20000), func(rt *rapid.T) {
+		c, nested, cl := genReval(rt, rec, noNegFixed)
+		kReval.Check(rt, c, nested, cl...)
+	})
+	rec.Rapid(t, "history", rec.N(2500, 20000), func(rt *rapid.T) {
+		c, nt, cl := genHistory(rt, rec, noNegFixed)
+		kHist.Check(rt, c, nt, cl...)
+	})
+	rec.Rapid(t, "shared", rec.N(40, 200), func(rt *rapid.T) {
+		c, nt, cl := genShared(rt, rec, noNegFixed)
+		kShared.Check(rt, c, nt, cl...)
+	})
 }
 
 // sweep enumerates, for each of the 64 integer types, the values {min-1, min, -1, 0, 1, max,
@@ -1014,5 +1073,8 @@ func TestReplay(t *testing.T) {
 	rec := evid.Start("C02", rule)
 	evid.NewKind(rec, "encode", judgeEncode)
 	evid.NewPool(rec, "concurrent", judgeEncode, 0)
+	evid.NewKind(rec, "revalidate", judgeReval)
+	evid.NewKind(rec, "history", judgeHistory)
+	evid.NewKind(rec, "shared", judgeShared)
 	rec.Replay(t)
 }
